@@ -28,6 +28,9 @@ def mk(cls_name):
         kw = dict(capacity=10.0)
     if cls_name == "Land":
         kw = dict(surfaces=[{"type_": "ImperviousSurface", "surface": "urban", "area": 10.0, "pore_depth": 0.01}])
+    if cls_name == "Land/pervious":           # a Land without an impervious surface
+        cls_name = "Land"
+        kw = dict(surfaces=[{"type_": "PerviousSurface", "surface": "rural", "area": 10.0, "depth": 0.5}])
     if cls_name == "Catchment":
         kw = dict(data_input_dict={("flow", 0): 7.0, ("phosphate", 0): 0.01, ("temperature", 0): 9.0})
     cls = NODES_REGISTRY[cls_name]
@@ -42,6 +45,17 @@ def state(node):
     import mon_net as MN
     names = ["volume", "phosphate"]
     return tuple((k, tuple(t.storage[n] for n in names)) for k, t in MN.tanks_of(node))
+
+
+def held(node):
+    """water in everything the node stores: tanks, surfaces, treatment works' batches"""
+    import mon_net as MN
+    v = sum(t.storage["volume"] for k, t in MN.tanks_of(node))
+    for attr in ("current_input", "liquor", "unrouted_water"):
+        x = getattr(node, attr, None)
+        if isinstance(x, dict) and "volume" in x:
+            v += x["volume"]
+    return v
 
 
 def run(rep, thorough, pid="C08"):
@@ -115,6 +129,7 @@ def run(rep, thorough, pid="C08"):
             continue
         tag = tuple(e["tag"].split("/")) if "/" in e["tag"] else e["tag"]
         targets = [c for ty in (e["of_type"] or list(seen_as)) for c in seen_as.get(ty, [])]
+        targets += ["Land/pervious"] if "Land" in targets else []
         for cname in targets:
             try:
                 hub = mk(cname)
@@ -124,7 +139,15 @@ def run(rep, thorough, pid="C08"):
                         arc = A.Arc(name="a", in_port=other, out_port=hub, capacity=100.0)
                         arc.send_push_check(tag=tag)
                         arc.send_push_check(dict(offer), tag=tag)
-                        arc.send_push_request(dict(offer), tag=tag)
+                        s0 = held(hub)
+                        reply = arc.send_push_request(dict(offer), tag=tag)
+                        # never silently lost: what the target did not hand back is in its stores (an outlet removes it,
+                        # a node that only passes water on has nowhere to pass it here and hands everything back)
+                        kept = held(hub) - s0
+                        if type(hub).__name__ != "Waste" and abs(kept + reply["volume"] - offer["volume"]) > 1e-9:
+                            bad(f"push of {offer['volume']} with tag {e['tag']!r} (emitted by {e['owner']}) to {cname}: {reply['volume']} handed back, "
+                                f"{kept} more in the target's stores - {offer['volume'] - reply['volume'] - kept} unaccounted for",
+                                {"emission": e, "target": cname})
                     else:
                         arc = A.Arc(name="a", in_port=hub, out_port=other, capacity=100.0)
                         arc.send_pull_check(tag=tag)
